@@ -32,6 +32,14 @@ type Interp struct {
 
 var errBiz = errors.New("biz")
 
+// blockerRes always rejects (flow rule with threshold 0): the source of genuine *base.BlockError values
+const blockerRes = "c03-blocker"
+
+// nilErr: a nil *nilErr stored in an error interface is a non-nil error
+type nilErr struct{}
+
+func (e *nilErr) Error() string { return "nil-typed error" }
+
 func New() vh.Interp {
 	runtime.GOMAXPROCS(1)
 	runtime.LockOSThread()
@@ -44,7 +52,8 @@ func New() vh.Interp {
 func (it *Interp) Reset() {
 	_, _ = circuitbreaker.LoadRules(nil)
 	circuitbreaker.ClearStateChangeListeners()
-	_, _ = flow.LoadRules(nil)
+	_, _ = flow.LoadRules([]*flow.Rule{{Resource: blockerRes, Threshold: 0, TokenCalculateStrategy: flow.Direct,
+		ControlBehavior: flow.Reject, StatIntervalInMs: 1000}})
 	_, _ = isolation.LoadRules(nil)
 	_, _ = hotspot.LoadRules(nil)
 	_, _ = system.LoadRules(nil)
@@ -200,20 +209,73 @@ func (it *Interp) Step(t []string, op string) string {
 		}
 		it.live[id] = e
 		return "pass"
-	case "exit":
-		id := vh.U(t[1])
-		if len(t) > 2 && t[2] != "err" {
+	case "clearres":
+		// ClearRulesOfResource(res): for a resource without rules this must be invisible to everybody else
+		if len(t) != 2 || it.clk.CurrentTimeMillis() == 0 {
 			return "bad-op"
+		}
+		if err := circuitbreaker.ClearRulesOfResource(t[1]); err != nil {
+			return "err"
+		}
+		return ""
+	case "exit":
+		// exit <id> [err[:<type>:<how>]] - every non-nil error makes the completion an error completion,
+		// whatever its dynamic type (plain | wrapped | block = *base.BlockError of a really blocked entry |
+		// niltyped = non-nil interface holding a nil pointer) and however it is reported
+		// (trace = api.TraceError | exitopt = Exit(WithError) | seterr = entry.SetError).
+		id := vh.U(t[1])
+		var err error
+		how := "trace"
+		if len(t) > 3 {
+			return "bad-op"
+		}
+		if len(t) == 3 {
+			f := strings.Split(t[2], ":")
+			if f[0] != "err" || (len(f) != 1 && len(f) != 3) {
+				return "bad-op"
+			}
+			typ := "plain"
+			if len(f) == 3 {
+				typ, how = f[1], f[2]
+			}
+			switch typ {
+			case "plain":
+				err = errBiz
+			case "wrapped":
+				err = fmt.Errorf("call failed: %w", errBiz)
+			case "block":
+				_, b := api.Entry(blockerRes)
+				if b == nil {
+					panic("blocker resource did not block")
+				}
+				err = b
+			case "niltyped":
+				var p *nilErr
+				err = p
+			default:
+				return "bad-op"
+			}
+			if how != "trace" && how != "exitopt" && how != "seterr" {
+				return "bad-op"
+			}
 		}
 		e := it.live[id]
 		if e == nil {
 			return ""
 		}
 		delete(it.live, id)
-		if len(t) > 2 {
-			api.TraceError(e, errBiz)
+		switch {
+		case err == nil:
+			e.Exit()
+		case how == "trace":
+			api.TraceError(e, err)
+			e.Exit()
+		case how == "seterr":
+			e.SetError(err)
+			e.Exit()
+		default:
+			e.Exit(base.WithError(err))
 		}
-		e.Exit()
 		return ""
 	case "state":
 		var xs []string
